@@ -248,8 +248,14 @@ def check_system(ctx, name, cx, patches, fullfin):
     try:
         MP = assemble.Multipatch(patches, automatch=True)
         f = lambda x, y: 2.0 + 0.0 * x     # constant: the shipped functional assembler takes f in parametric coordinates
+        # one args dict for everything, as in a user script: first the undivided reference domain (assemble() stores the
+        # keyword inputs, e.g. geo=..., into the dict it is given), then the multipatch system
+        args = {'f': f}
+        kvs_ref = tuple(bspline.make_knots(p, 0.0, 1.0, W[a], mult=p) for a in range(D))
+        geo_ref = geometry.tensor_product(geometry.line_segment(0.0, float(W[0])), geometry.line_segment(0.0, float(W[1])))
+        assemble.assemble(assemblers.StiffnessAssembler2D, kvs_ref, args=args, geo=geo_ref)
         A, b = MP.assemble_system(assemblers.StiffnessAssembler2D, assemblers.L2FunctionalAssembler2D,
-                                  args={'f': f})
+                                  args=args)
         A = A.toarray()
         gidx = [MP.patch_to_global_idx(q) for q in range(cx['NP'])]
     except Exception as ex:
